@@ -234,7 +234,7 @@ def plan(tier):
                  ("mediapairs", dict(max_events=2, wfc=0, traffic=True, phases=["mediaFlowing"], ev2=["Close"])),
                  ("rtp", dict(max_events=1, wfc=0, mode="Rtp", dc=False, ev1=["Close", "Drop", "IceStop"])),
                  ("srtp", dict(max_events=1, wfc=0, mode="Srtp", dc=False, ev1=["Close", "Drop", "IceStop"]))],
-        "attempts": 5, "shards": 12, "repeat": 2,
+        "attempts": 3, "shards": 12, "repeat": 1,
     }
 
 
@@ -347,7 +347,7 @@ def run(tier):
             if r[-1].get("hit") and not [v for v in broken if v[0] != "EXT"]:
                 nontrivial.add((sc["mode"], sc["phase"], sc["ev1"], sc["ev2"], sc["at2"]))
 
-    reported = set()
+    reported, confirmed = set(), {}
     for mode, dc, r, v in findings:
         sc = r[0]["scenario"]
         if v[0] == "EXT":
@@ -357,8 +357,12 @@ def run(tier):
         key = json.dumps(sig, sort_keys=True)
         record = {"scenario": sc, "broken": list(v), "end": {x: y for x, y in r[-1].items() if x != "api"},
                   "api": r[-1].get("api"), "replay": sc}
-        if v[0] in LIVENESS_RULES and key not in reported and ck.known.match(PID, sig) is None:
-            if not confirm(ck, sc, v[0], mode, dc):
+        if (v[0] in LIVENESS_RULES and key not in reported and ck.known.match(PID, sig) is None
+                and confirmed.get(v[0], 0) < 2):
+            # (once two signatures of a rule have been reproduced 3x, further ones of that rule are taken as is)
+            if confirm(ck, sc, v[0], mode, dc):
+                confirmed[v[0]] = confirmed.get(v[0], 0) + 1
+            else:
                 ck.notes.append(f"unconfirmed (not reproduced 3x): {v} in {sc}")
                 continue
         reported.add(key)
